@@ -77,7 +77,85 @@ class Gen:
                 return '%s::entry_pt<%s >' % (sub, cname(sub, p))
         return self.state_type(m, t)
 
+    # ---- member-function front-end families (C14)
+    def member_ok(self, r):
+        return self.variant in ('basic', 'row2') and r['actions'] != 'Defer'
+
+    def fn_id(self, r):
+        import re
+        return re.sub(r'[^A-Za-z0-9]', '_', r['_site'])
+
+    def guard_cpp(self, g, sites):
+        if isinstance(g, int):
+            idx = next(sites)
+            return 'vf::member_guard<%d,%d>(e, *this)' % (g, idx)
+        if g[0] == 'not':
+            return '!(%s)' % self.guard_cpp(g[1], sites)
+        op = '&&' if g[0] == 'and' else '||'
+        a = self.guard_cpp(g[1], sites)
+        b = self.guard_cpp(g[2], sites)
+        return '((%s) %s (%s))' % (a, op, b)
+
+    def member_fns(self, m):
+        """member functions of the front-end for every table row / sm-internal row in member form"""
+        out = []
+        rows = list(m['table']) + list(m['internal'])
+        for r in rows:
+            if not self.member_ok(r):
+                continue
+            ev = self.ev_type(r['ev'])
+            fid = self.fn_id(r)
+            if r['_asites']:
+                body = ' '.join('vf::member_action(%d, e, *this);' % i for i in r['_asites'])
+                out.append('    void A_%s(%s const& e) { %s }' % (fid, ev, body))
+            if r['guard'] is not None:
+                out.append('    bool G_%s(%s const& e) { return %s; }' % (fid, ev, self.guard_cpp(r['guard'], iter(r['_gsites']))))
+        return out
+
+    def member_row_expr(self, m, r, fe):
+        ev = self.ev_type(r['ev'])
+        fid = self.fn_id(r)
+        has_a = bool(r['_asites'])
+        has_g = r['guard'] is not None
+        src = self.src_type(m, r)
+        A = '&%s::A_%s' % (fe, fid)
+        G = '&%s::G_%s' % (fe, fid)
+        two = self.variant == 'row2'
+        if r['tgt'] is None:
+            if has_a and has_g:
+                return ('boost::msm::front::irow2<%s,%s,%s,%s,%s,%s >' % (src, ev, fe, A, fe, G)) if two else ('irow<%s,%s,%s,%s >' % (src, ev, A, G))
+            if has_a:
+                return ('boost::msm::front::a_irow2<%s,%s,%s,%s >' % (src, ev, fe, A)) if two else ('a_irow<%s,%s,%s >' % (src, ev, A))
+            if has_g:
+                return ('boost::msm::front::g_irow2<%s,%s,%s,%s >' % (src, ev, fe, G)) if two else ('g_irow<%s,%s,%s >' % (src, ev, G))
+            return '_irow<%s,%s >' % (src, ev)
+        tgt = self.tgt_type(m, r)
+        if has_a and has_g:
+            return ('boost::msm::front::row2<%s,%s,%s,%s,%s,%s,%s >' % (src, ev, tgt, fe, A, fe, G)) if two else ('row<%s,%s,%s,%s,%s >' % (src, ev, tgt, A, G))
+        if has_a:
+            return ('boost::msm::front::a_row2<%s,%s,%s,%s,%s >' % (src, ev, tgt, fe, A)) if two else ('a_row<%s,%s,%s,%s >' % (src, ev, tgt, A))
+        if has_g:
+            return ('boost::msm::front::g_row2<%s,%s,%s,%s,%s >' % (src, ev, tgt, fe, G)) if two else ('g_row<%s,%s,%s,%s >' % (src, ev, tgt, G))
+        return ('boost::msm::front::_row2<%s,%s,%s >' % (src, ev, tgt)) if two else ('_row<%s,%s,%s >' % (src, ev, tgt))
+
+    def member_internal_expr(self, r, fe):
+        ev = self.ev_type(r['ev'])
+        fid = self.fn_id(r)
+        has_a = bool(r['_asites'])
+        has_g = r['guard'] is not None
+        A = '&%s::A_%s' % (fe, fid)
+        G = '&%s::G_%s' % (fe, fid)
+        if has_a and has_g:
+            return 'boost::msm::front::internal<%s,%s,%s,%s,%s >' % (ev, fe, A, fe, G)
+        if has_a:
+            return 'boost::msm::front::a_internal<%s,%s,%s >' % (ev, fe, A)
+        if has_g:
+            return 'boost::msm::front::g_internal<%s,%s,%s >' % (ev, fe, G)
+        return 'boost::msm::front::_internal<%s >' % ev
+
     def row_expr(self, m, r):
+        if self.member_ok(r):
+            return self.member_row_expr(m, r, m['name'] + '_')
         g = self.guard_expr(r['guard'], iter(r['_gsites']))
         a = self.action_expr(r)
         return 'boost::msm::front::Row<%s,%s,%s,%s,%s >' % (
@@ -103,6 +181,8 @@ class Gen:
         w('#include "vf_rt.hpp"')
         w('#include "vf_kits.hpp"')
         w('#include <boost/msm/front/operator.hpp>')
+        w('#include <boost/msm/front/row2.hpp>')
+        w('#include <boost/msm/front/internal_row.hpp>')
         w('#include <memory>')
         w('namespace mpl = boost::mpl;')
         w()
@@ -271,12 +351,15 @@ class Gen:
                 w('    typedef boost::mpl::vector<%s > flag_list;' % ','.join(ps['flags']))
             if ps['deferred']:
                 w('    typedef boost::mpl::vector<%s > deferred_events;' % ','.join(ps['deferred']))
+        for line in self.member_fns(m):
+            w(line)
         w('    struct transition_table : boost::mpl::vector<')
         w('        ' + ',\n        '.join(self.row_expr(m, r) for r in m['table']))
         w('    > {};')
         if m['internal']:
             w('    struct internal_transition_table : boost::mpl::vector<')
-            w('        ' + ',\n        '.join(self.internal_expr(r) for r in m['internal']))
+            w('        ' + ',\n        '.join((self.member_internal_expr(r, mn + '_') if self.member_ok(r) else self.internal_expr(r))
+                                             for r in m['internal']))
             w('    > {};')
         w('};')
         w()
